@@ -82,6 +82,10 @@ REQUIRE = {
     "l_kind_mirror": 40,
     "l_kind_random": 40,
     "c_blank_cells_judged": 1000,
+    "c_cells_fg_high_empty_string_basic_not_default": 80,
+    "c_cells_bg_high_empty_string_basic_not_default": 80,
+    "c_cells_fg_high_None_falls_back_to_basic": 150,
+    "c_cells_bg_high_None_falls_back_to_basic": 100,
     "c_trailing_blank_cells_erased": 400,
     "c_trailing_blank_cells_printed": 200,
     "c_trailing_blank_cells_with_visible_style": 200,
@@ -1428,11 +1432,22 @@ def gen_entry(rng, name_idx, depth_hint):
             mono = join_spec(rng, "default" if rng.random() < 0.2 else None, gen_settings(rng))
         op.append(mono)
     if form == 6:
-        fgh = None if rng.random() < 0.12 else join_spec(rng, gen_high_colour(rng, depth_hint), gen_settings(rng))
+        # each high field independently: None (fall back to the 16-colour field) | "" (= default) | settings only
+        # (colour default) | a spelled-out / real colour
+        r = rng.random()
+        if r < 0.12:
+            fgh = None
+        elif r < 0.24:
+            fgh = ""
+        elif r < 0.32:
+            fgh = join_spec(rng, None, gen_settings(rng) or ["underline"])
+        else:
+            fgh = join_spec(rng, gen_high_colour(rng, depth_hint), gen_settings(rng))
         bc = gen_high_colour(rng, depth_hint)
         while bc in BRIGHT:
             bc = gen_high_colour(rng, depth_hint)
-        bgh = None if rng.random() < 0.12 else bc
+        r = rng.random()
+        bgh = None if r < 0.12 else ("" if r < 0.26 else bc)
         op += [fgh, bgh]
     return op
 
@@ -1754,6 +1769,14 @@ def c_eval(case, stats=None):
                             if known:
                                 ent, kind = model[a]
                                 exp = M.entry_expect(ent, depth)
+                                if depth >= 88 and not (depth == 88 and (M.uses_large_h(ent[3] or "") or M.uses_large_h(ent[4] or ""))):
+                                    # "" means default; None means "use the 16-colour field": decisive when they differ
+                                    for hi, lo, which in ((ent[3], ent[0], "fg"), (ent[4], ent[1], "bg")):
+                                        lo_default = M.split_spec(lo) == ("default", frozenset())
+                                        if hi == "" and not lo_default:
+                                            cnt(f"c_cells_{which}_high_empty_string_basic_not_default")
+                                        elif hi is None and not lo_default:
+                                            cnt(f"c_cells_{which}_high_None_falls_back_to_basic")
                                 if kind == "alias":
                                     cnt("c_alias_cells")
                                 if a is None:
@@ -1808,8 +1831,22 @@ def c_eval(case, stats=None):
                                 if eo is not None and not c_cell_ok(cell, eo, ob):
                                     stale = True
                                     break
+                        empty_fb = False
+                        if bad and not isinstance(a, urwid.AttrSpec) and kind != "undefined-name":
+                            ent = model[a][0]
+                            if ent[3] == "" or ent[4] == "":
+                                ent2 = (ent[0], ent[1], ent[2], None if ent[3] == "" else ent[3], None if ent[4] == "" else ent[4])
+                                e4 = M.entry_expect(ent2, depth)
+                                if e4 is not None:
+                                    b4 = c_cell_ok(cell, e4, bib)
+                                    if is_blank:
+                                        b4 = [b for b in b4 if b in vis]
+                                    empty_fb = not b4
                         if bad:
-                            if stale:
+                            if empty_fb:
+                                how = "empty-string-high-field-treated-like-None-(16-colour-field-used)"
+                                stale = False
+                            elif stale:
                                 how = "stale-style-of-earlier-terminal-properties"
                             elif not c_cell_ok(cell, DEFAULT_EXP, bib):
                                 how = "decodes-to-default"
@@ -1831,7 +1868,9 @@ def c_eval(case, stats=None):
                             if how.startswith("wrong:"):
                                 how += f"|depth={depth}|bright_is_bold={bib}"
                             sig = f"C17|c|entry={kind}|{how}|{stage}"
-                            if stale:
+                            if empty_fb:
+                                sig = f"C17|c|entry={kind}|{how}"
+                            elif stale:
                                 sig = f"C17|c|redraw-same-content|{how}|{stage}"
                             elif is_blank and cell.erased:
                                 dc = "mono" if depth == 1 else ("16" if depth == 16 else "high")
